@@ -442,4 +442,16 @@ example :
   exact peval_volume_of_params _ _ _ (by simp [C, VDom.allVars, Env.get, List.lookup])
 end
 
+/-! ## 3. triangle density grid after the repair -/
+
+/-- the repaired triangle density grid never has more than `n = ceil(d·area)` points (the pinned snapshot could:
+    `tri_density_grid_can_exceed`) and is an initial piece of the lattice -/
+theorem triDensityGrid_length_le (n n1 n2 : ℕ) :
+    (triDensityGrid n n1 n2).length ≤ n ∧ (triDensityGrid n n1 n2) <+: triGrid n1 n2 := by
+  refine ⟨?_, List.take_prefix _ _⟩
+  simp only [triDensityGrid, List.length_take]
+  exact Nat.min_le_left _ _
+
+example : (triDensityGrid 5 3 3).length = 5 ∧ (triGrid 3 3).length = 6 := by decide +kernel
+
 end TPV.Geom
